@@ -93,6 +93,7 @@ func checkC14(c *Ctx) (int, error) {
 			cs.FailAt = k
 			cs.Partial = k%2 == 0
 			cs.ErrKind = errKinds[(k/2)%len(errKinds)]
+			cs.FullCount = k%3 == 0
 			cases = append(cases, &cs)
 			c.ev.nontrivial(histString(cs.Ops) + "|" + cs.Tag + fmt.Sprint(k))
 		}
